@@ -226,7 +226,7 @@ func (a Arith) String() string {
 }
 
 type Item struct {
-	Kind  string `json:"kind"` // "star", "col", "str", "num", "arith", "concat" (Lit holds the text: s + ' ' + t)
+	Kind  string `json:"kind"` // "star", "col", "str", "num", "arith", "concat" (Lit holds the text: s + ' ' + t), "ifnull" (if_null(Path, Lit))
 	Path  Path   `json:"path,omitempty"`
 	Lit   string `json:"lit,omitempty"` // string content or number text
 	Q     string `json:"q,omitempty"`   // quote of a string literal
@@ -255,6 +255,8 @@ func (it Item) text() string {
 		e = it.Ar.String()
 	case "concat":
 		e = it.Lit
+	case "ifnull":
+		e = "if_null(" + it.Path.String() + ", " + it.Lit + ")"
 	}
 	if it.Alias != "" {
 		kw := it.Kw
@@ -553,6 +555,13 @@ func project(items []Item, row gen.Row) map[string]expVal {
 			}
 		case "concat":
 			out[name] = expVal{any: true}
+		case "ifnull":
+			if v, ok := resolve(row, it.Path); ok && !v.IsNull() {
+				out[name] = expVal{v: v.Go()}
+			} else {
+				f, _ := strconv.ParseFloat(it.Lit, 64)
+				out[name] = expVal{v: f, approx: true}
+			}
 		}
 	}
 	return out
